@@ -71,9 +71,9 @@ Qed.
 Section s.
   Context `{L : monoid.laws} `{Hl : BKA ≪ l} (n : ob X) (f : N -> X n n).
   Lemma iri_in_S_ka : eval n f (abstract IRI) ≦ eval n f (abstract S_rx).
-  Proof. vm_compute. ka. Qed.
+  Proof. rewrite leq_iff_cup. vm_compute. ka. Qed.
   Lemma irel_in_T_ka : eval n f (abstract irelative_ref) ≦ eval n f (abstract T_rx).
-  Proof. vm_compute. ka. Qed.
+  Proof. rewrite leq_iff_cup. vm_compute. ka. Qed.
 End s.
 
 Lemma incl_transport (r s : rex cclass) :
